@@ -113,7 +113,7 @@ theorem walk_in_side {a x : α} : ∀ (l : List α) (v : α), Walk par (v :: l) 
     · exact hs
     · exact ih u hwalk.2 hna' (side_closed hs hwalk.1 hu) w hw'
 
-theorem sides_disjoint {a x y b : α} (hx : Adj par a x) (hy : Adj par a y)
+theorem sides_disjoint {a x y b : α} (_hx : Adj par a x) (_hy : Adj par a y)
     (sx : Side par a x b) (sy : Side par a y b) : x = y := by
   rcases sx with ⟨px, ax⟩ | ⟨px, ax⟩ <;> rcases sy with ⟨py, ay⟩ | ⟨py, ay⟩
   · -- both children of a, both ancestors of b
